@@ -20,7 +20,19 @@ CHECKS = {
 
 NOT_YET = "check not built yet in this session (work in progress; design in DESIGN.md §5)"
 
+def load_pkg_entries():
+    """checks/cNN/manifest.json: {"category","technique","text","note","ref"} written next to a check package."""
+    import glob
+    for f in sorted(glob.glob(os.path.join(HERE, "harness", "checks", "c*", "manifest.json"))):
+        pid = os.path.basename(os.path.dirname(f)).upper()
+        reg = os.path.join(HERE, "harness", "cmd", "vcheck", "reg_%s.go" % pid.lower())
+        if not os.path.exists(reg):
+            continue  # not wired into vcheck yet
+        d = json.load(open(f))
+        CHECKS[pid] = (d["category"], d["technique"], d["text"], d["note"], d.get("ref", "DESIGN.md §5 " + pid))
+
 def main():
+    load_pkg_entries()
     props = [json.loads(l)["id"] for l in open(os.path.join(HERE, "properties.jsonl"))]
     hooks_commits = []
     hc = os.path.join(HERE, "hooks_commits.txt")
